@@ -2,9 +2,11 @@
 """usage: import_seeds2.py <PROP> <confirm-log>...: copies confirmed second-round seeds /tmp/seed-out2/<PROP>/m<k> into
 /verif/seeded/<PROP>-r2-m<k>/ (a directory m<k>-rebased, if present, supplies the patch rebased onto later fix: commits)"""
 import sys, os, json, shutil, re, glob
+import os as _os
+ROOT = _os.environ.get('SEED_ROOT', '/tmp/seed-out2')
 prop = sys.argv[1]
 log = ''.join(open(f).read() for f in sys.argv[2:])
-for m in sorted(glob.glob('/tmp/seed-out2/%s/m[0-9]' % prop)):
+for m in sorted(glob.glob('%s/%s/m[0-9]' % (ROOT, prop))):
     k = os.path.basename(m)
     rs = re.findall(r'RESULT %s existing_with_patch=(\d+) demo_with_patch=(\d+) demo_without_patch=(\d+)' % re.escape(m), log)
     if not any(r[0] == '0' and r[1] != '0' and r[2] == '0' for r in rs):
